@@ -1,5 +1,6 @@
 import DaskModel.DriverLib
 import DaskModel.Model.Config
+import DaskModel.Model.ConfigAlias
 import DaskModel.Generated.ConfigTables
 import DaskModel.Model.LockReg
 import DaskModel.Model.Match
@@ -154,9 +155,94 @@ def hProg : Handler := handler fun args =>
     | .stuck => pure (.list [.sym "stuck", .list [], tr])
   | _ => none
 
+/-! ### identities of dict objects (`Model/ConfigAlias.lean`)
+
+Wire format: a leaf is an integer, a dict object is `(n id (("key" value)…))`. -/
+open Dask.ConfigAlias
+
+partial def toH? : SExp → Option HCfg
+  | .int i => some (.leaf i)
+  | .list [.sym "n", i, .list items] => do
+    let kvs ← items.mapM fun it =>
+      match it with
+      | .list [k, v] => do pure ((← k.toStr?), (← toH? v))
+      | _ => none
+    pure (.node (← i.toNat?) kvs)
+  | _ => none
+
+partial def ofH : HCfg → SExp
+  | .leaf i => .int i
+  | .node i d => .list [.sym "n", SExp.ofNat i, .list (d.map fun kv => .list [.str kv.1, ofH kv.2])]
+
+def updOf (share : Bool) : Upd :=
+  if share then hupdateShare else hupdate
+
+def toDflt? : SExp → Option (Option Cfg)
+  | .sym "none" => some none
+  | e => (toCfg? e).map some
+
+/-- `(cfg-hupdate share? prio old new defaults|none nx)` ↦ `(ok old' nx')` | `(raised)`; `old`, `new` are dict objects -/
+def hHUpdate : Handler := handler fun args =>
+  match args with
+  | [sh, p, old, new, dflt, nx] => do
+    let o ← toH? old
+    match updOf (← sh.toBool?) (← toPrio? p) (entriesOf (← toH? new)) (entriesOf o) (← toDflt? dflt) (← nx.toNat?) with
+    | some r => pure (.list [.sym "ok", ofH (.node (idOf o) r.1), SExp.ofNat r.2])
+    | none => pure (.list [.sym "raised"])
+  | _ => none
+
+/-- `(cfg-hmerge (d1 d2 …) nx)` ↦ `(ok result nx')` -/
+def hHMerge : Handler := handler fun args =>
+  match args with
+  | [ds, nx] => do
+    let ds ← (← ds.toList?).mapM toH?
+    match hmerge (ds.map entriesOf) (← nx.toNat?) with
+    | some r => pure (.list [.sym "ok", ofH r.1, SExp.ofNat r.2])
+    | none => pure (.list [.sym "raised"])
+  | _ => none
+
+def toHOp? : SExp → Option HOp
+  | .list [.sym "merge", srcs] => do pure (.merge (← srcs.toNats?))
+  | .list [.sym "update", p, dst, src, dflt] => do
+    let dd ← match dflt with
+      | .sym "none" => some none
+      | e => e.toNat?.map some
+    pure (.update (← toPrio? p) (← dst.toNat?) (← src.toNat?) dd)
+  | .list [.sym "set", dst, key, c] => do pure (.setLeaf (← dst.toNat?) (splitKey (← key.toStr?)) (← c.toInt?))
+  | .list [.sym "updefaults", new, cfg] => do pure (.updateDefaults (← new.toNat?) (← cfg.toNat?))
+  | .list [.sym "refresh", cfg] => do pure (.refresh (← cfg.toNat?))
+  | _ => none
+
+/-- states after each operation, until the first one that raises -/
+def histStates (share : Bool) : HStore → VStore → List HOp → List SExp
+  | _, _, [] => []
+  | s, v, op :: ops =>
+    match hstep (updOf share) s op with
+    | none => [.list [.sym "raised", SExp.ofBool (vstep v op).isNone]]
+    | some s' =>
+      match vstep v op with
+      | some v' =>
+        -- `erase-agrees`: the identity-carrying run, identities forgotten, is the value-level run
+        let agrees := ((s'.vars.map fun w => ofDict (eraseL (entriesOf w))) == v'.vars.map ofDict) && s'.defaults == v'.defaults
+        .list [.sym "ok", .list (s'.vars.map ofH), SExp.ofNats s'.defaults, SExp.ofNat s'.nx, SExp.ofBool agrees]
+          :: histStates share s' v' ops
+      | none => [.list [.sym "value-model-raised"]]
+
+/-- `(cfg-hist share? (vars…) nx (ops…))` ↦ `((ok (vars…) (defaults…) nx erase-agrees) … [(raised value-too)])` -/
+def hHist : Handler := handler fun args =>
+  match args with
+  | [sh, vars, nx, ops] => do
+    let vs ← (← vars.toList?).mapM toH?
+    let ops ← (← ops.toList?).mapM toHOp?
+    let s : HStore := { vars := vs, defaults := [], nx := ← nx.toNat? }
+    let v : VStore := { vars := vs.map fun w => eraseL (entriesOf w), defaults := [] }
+    pure (.list (histStates (← sh.toBool?) s v ops))
+  | _ => none
+
 def table : List (String × Handler) :=
   [("cfg-set", hSet), ("cfg-set-norollback", hSetNoRollback), ("cfg-exit", hExit), ("cfg-get", hGet),
-   ("cfg-canon", hCanon), ("cfg-update", hUpdate), ("cfg-merge", hMerge), ("cfg-env", hEnv), ("cfg-prog", hProg)]
+   ("cfg-canon", hCanon), ("cfg-update", hUpdate), ("cfg-merge", hMerge), ("cfg-env", hEnv), ("cfg-prog", hProg),
+   ("cfg-hupdate", hHUpdate), ("cfg-hmerge", hHMerge), ("cfg-hist", hHist)]
 end C17
 
 /-! ## C53 — SerializableLock registry -/
